@@ -75,7 +75,7 @@ def Fault.applies (O : Oracles) (w : World) (src : ClassSrc) : Fault → Bool
   | .mutableClassForm _ _ v => (Dflt.lit v).isMutableLit
   | .badName n e => (entryMember e).isSome && badFieldName n
   | .optionalRequired n =>
-    (src.required.isSome && (requiredOwn src).contains n) || (basesRequired w src).contains n
+    (src.required.isSome && (requiredEff w src).contains n) || (basesRequired w src).contains n
   | .sealedBase b => sealedCls w b
   | .badConstant _ v => !constSupported v
   | .keysOfMissing _ _ n _ _ => !((allFieldsOf w src).map (·.1)).contains n
